@@ -110,12 +110,22 @@ def prepare():
     gc.freeze()
 
 
+def shrink_case(case, still_fails, budget=600, seconds=120):
+    from .. import dynshrink
+
+    return dynshrink.shrink_case(case, still_fails, budget=budget, seconds=seconds)
+
+
 def classify(v):
     return v.get("detail", {}).get("finding")
 
 
 def strip(o):
     return {k: v for k, v in o.items() if k not in ("sim", "world", "scene", "log")}
+
+
+def _bits(tables):
+    return {str(k): "".join("1" if b else "0" for b in v) for k, v in tables.items()}
 
 
 def run_dyn(tape, feat, bug_models, raise_guards_choice=False, n_env_max=6):
@@ -134,9 +144,51 @@ def run_dyn(tape, feat, bug_models, raise_guards_choice=False, n_env_max=6):
             "nontrivial": False,
             "stats": {"programs": 1, "result:compile-error": 1},
             "sample": {"program": src, "error": msg[:300]},
+            "case": {"prog": prog, "tables": {}, "schedule": [], "max_steps": prog["max_steps"],
+                     "raise_guards": False, "env_seed": 0},
         }
     nobj = dyngen.count_objects(prog)
     n_env = tape.intrange(1, n_env_max, "n_env")
+    envs = []
+
+    def next_env(e):
+        max_steps = prog["max_steps"]
+        tables = g.tables(prog, max_steps + 2)
+        schedule = g.schedule(max_steps + 1, nobj)
+        raise_guards = bool(raise_guards_choice and tape.chance(1, 2, "raiseGuards"))
+        return tables, schedule, max_steps, raise_guards
+
+    return _run_envs(prog, src, scenario, n_env, next_env, bug_models)
+
+
+def run_dyn_case(case, bug_models):
+    """Replay of a decoded case (see dynshrink): one program, one environment."""
+    prog = case["prog"]
+    src = dyn.render(prog)
+    dynrun.sanitize()
+    try:
+        scenario = dynrun.compile_prog(src, top=None if prog["flat"] else "Main")
+    except Exception as e:  # noqa: BLE001
+        msg = f"{type(e).__name__}: {e}"
+        return {
+            "violations": [{"clause": "compile-error",
+                            "detail": {"error": msg[:300], "finding": compile_finding(prog, msg)}}],
+            "digest": hashlib.blake2b((src + msg).encode(), digest_size=8).hexdigest(),
+            "nontrivial": False,
+            "stats": {"programs": 1, "result:compile-error": 1},
+            "sample": {"program": src, "error": msg[:300]},
+            "case": case,
+        }
+    tables = {int(k): [ch == "1" for ch in bits] for k, bits in case["tables"].items()}
+
+    def next_env(e):
+        return tables, case["schedule"], case["max_steps"], bool(case.get("raise_guards"))
+
+    return _run_envs(prog, src, scenario, 1, next_env, bug_models, first_seed=case.get("env_seed", 0))
+
+
+def _run_envs(prog, src, scenario, n_env, next_env, bug_models, first_seed=0):
+    nobj = dyngen.count_objects(prog)
     stats = {"programs": 1}
     violations = []
     digest = hashlib.blake2b(src.encode(), digest_size=8)
@@ -144,11 +196,9 @@ def run_dyn(tape, feat, bug_models, raise_guards_choice=False, n_env_max=6):
     nontrivial = False
     ncor = nobj + len(prog["monitors"]) + sum(1 for s in prog["scenarios"] if s["compose"] is not None)
     sample = None
-    for e in range(n_env):
-        max_steps = prog["max_steps"]
-        tables = g.tables(prog, max_steps + 2)
-        schedule = g.schedule(max_steps + 1, nobj)
-        raise_guards = bool(raise_guards_choice and tape.chance(1, 2, "raiseGuards"))
+    case = None
+    for e in range(first_seed, first_seed + n_env):
+        tables, schedule, max_steps, raise_guards = next_env(e)
         impl = dynrun.run_impl(scenario, tables, schedule, max_steps, prog["timestep"], seed=e,
                                raise_guards=raise_guards)
         verdict, info, ref, finding = dynrun.judge(
@@ -175,7 +225,7 @@ def run_dyn(tape, feat, bug_models, raise_guards_choice=False, n_env_max=6):
                 "timestep": prog["timestep"],
                 "max_steps": max_steps,
                 "raiseGuardViolations": raise_guards,
-                "tables": {str(k): "".join("1" if b else "0" for b in v) for k, v in tables.items()},
+                "tables": _bits(tables),
                 "schedule": schedule,
                 "impl": strip(impl),
                 "impl_log": [list(x) for x in dynrun.norm_log(impl["log"])][:200],
@@ -198,6 +248,8 @@ def run_dyn(tape, feat, bug_models, raise_guards_choice=False, n_env_max=6):
                 d["ref_outcome"] = strip(ref) if ref else None
                 d["finding"] = fkey
                 violations.append({"clause": clause, "detail": d})
+            case = {"prog": prog, "tables": _bits(tables), "schedule": schedule, "max_steps": max_steps,
+                    "raise_guards": raise_guards, "env_seed": e}
             break
     return {
         "violations": violations,
@@ -208,4 +260,5 @@ def run_dyn(tape, feat, bug_models, raise_guards_choice=False, n_env_max=6):
         "sample": sample,
         "steps": steps,
         "simsec": steps * float(prog["timestep"]),
+        "case": case,
     }
